@@ -644,3 +644,131 @@ def rule_x9(P, reach):
     if n < 1:
         raise E4Error("X9: the scheduler's own spawn sites were not found")
     return findings, obl, {"thread_creation_sites": n}
+
+
+# ------------------------------------------------------------------------------------------------ X10: loop census
+SHRINK = {"pop", "pop_front", "pop_back", "pop_first", "pop_last", "remove", "swap_remove", "truncate", "drain", "split_off", "split_first",
+          "split_last", "take", "retain", "recv", "clear"}
+ARITH = {"AddWithOverflow", "SubWithOverflow", "Add", "Sub", "Div", "Shr"}
+
+
+def _loops(P, fn):
+    """natural loops of a body: list of (header block, header line, scc block set)"""
+    from collections import defaultdict
+    b = P.bodies[fn]
+    blocks = b["blocks"]
+    cfg = CFG(b)
+    color = {0: 1}
+    heads = defaultdict(set)   # header -> tails of its back edges
+    stack = [(0, iter(cfg.succ[0]))]
+    while stack:
+        v, itr = stack[-1]
+        adv = False
+        for w in itr:
+            if blocks[w]["cl"]:
+                continue
+            if color.get(w, 0) == 0:
+                color[w] = 1
+                stack.append((w, iter(cfg.succ[w])))
+                adv = True
+                break
+            elif color[w] == 1:
+                heads[w].add(v)
+        if not adv:
+            color[v] = 2
+            stack.pop()
+    rev = defaultdict(set)
+    for u in range(cfg.n):
+        for w in cfg.succ[u]:
+            rev[w].add(u)
+    out = []
+    for h in sorted(heads):
+        # natural loop: the header plus everything that reaches a back-edge tail without passing through the header
+        # (an inner loop therefore does not contain the blocks of the loop around it)
+        body = {h}
+        st = [t for t in heads[h]]
+        while st:
+            x = st.pop()
+            if x in body:
+                continue
+            body.add(x)
+            for p in rev[x]:
+                if p not in body and not blocks[p]["cl"]:
+                    st.append(p)
+        out.append((h, blocks[h]["t"]["l"], body))
+    return out
+
+
+def loop_features(P, fn, scc):
+    b = P.bodies[fn]
+    calls, arith = [], False
+    for x in sorted(scc):
+        blk = b["blocks"][x]
+        for st in blk["s"]:
+            if st["rv"].get("r") == "bin" and st["rv"].get("op") in ARITH:
+                arith = True
+        t = blk["t"]
+        if t["t"] == "call":
+            k = t["f"].get("k") or {}
+            calls.append(k.get("res") or k.get("fn") or "?")
+    return calls, arith
+
+
+def rule_x10(P, reach, tables, g1_covers):
+    """Census of loops that are not driven by a std iterator, over everything reachable from the compiler's entry points outside the
+    feature-file parser (those loops are *proved* to make progress by rule G1).  Each such loop must be listed in the audited table with
+    the reason it terminates; the recorded class is re-checked structurally (counter: still has index arithmetic; shrink: still calls
+    the shrinking method; cursor: still calls the advancing API; plist-derive: generated FromPlist::parse).  A loop that is not
+    listed - e.g. a new `while let Some(next) = map.get(cur)` that follows references in the input - is a violation."""
+    from common import norm_fn
+    table = {(e["fn"], e["n"]): e for e in tables.get("e4_recursion", {}).get("loops", [])}
+    findings, obl = [], []
+    n_all = n_iter = n_auto = 0
+    seen = set()
+    ordinals = {}
+    for fn in sorted(reach):
+        b = P.bodies.get(fn)
+        if not b or fn.startswith(("fontc::timing", "fontc[bin]")) or "#promoted" in fn or b.get("dk") not in ("Fn", "AssocFn", "Closure"):
+            continue
+        if g1_covers(fn):
+            continue
+        for h, line, scc in sorted(_loops(P, fn), key=lambda x: x[1]):
+            calls, arith = loop_features(P, fn, scc)
+            n_all += 1
+            if any(c.endswith(("::next", "::next_back")) for c in calls):
+                n_iter += 1
+                continue
+            short = [c.rsplit("::", 1)[-1] for c in calls]
+            nf = norm_fn(fn)
+            key = (nf, ordinals.get(nf, 0))
+            ordinals[nf] = key[1] + 1
+            seen.add(key)
+            # generated plist readers: `loop { if eat('}') {break}; key = parse()?; ... }` over the plist tokenizer
+            if b.get("trait_item") == "glyphs_reader::plist::FromPlist::parse" and any(c.startswith("glyphs_reader::plist::") for c in calls):
+                n_auto += 1
+                continue
+            e = table.get(key)
+            if e is None:
+                obl.append({"rule": "X10", "inst": f"{nf}#loop{key[1]} has a recorded termination argument", "ok": False})
+                findings.append(F("X10", f"X10|{nf}|loop{key[1]}",
+                                  f"{fn} has a loop that is not driven by an iterator and has no recorded termination argument (calls in the loop: {short[:8]}): "
+                                  f"if it follows references or state taken from the input (a chain of ids, a work list that can grow) a crafted source makes the compiler hang",
+                                  P.site_loc(fn, line)))
+                continue
+            cls = e["class"]
+            ok, why = True, ""
+            if cls == "counter" and not arith:
+                ok, why = False, "no index arithmetic left in the loop"
+            elif cls == "shrink" and not (set(short) & SHRINK):
+                ok, why = False, "no shrinking call left in the loop"
+            elif cls == "cursor" and not (set(short) & set(e.get("api", []))):
+                ok, why = False, f"none of the advancing calls {e.get('api')} left in the loop"
+            obl.append({"rule": "X10", "inst": f"{nf}#loop{key[1]} [{cls}] {e['reason'][:90]}", "ok": ok})
+            if not ok:
+                findings.append(F("X10", f"X10|{nf}|loop{key[1]}|{cls}", f"the recorded termination argument of a loop in {fn} ({cls}: {e['reason']}) no longer matches the code: {why}",
+                                  P.site_loc(fn, line)))
+    for key, e in table.items():
+        if key not in seen:
+            findings.append(F("X10", f"X10|stale|{key[0]}|loop{key[1]}", f"audited loop entry {key} matches nothing any more; remove it", "tables/e4_recursion.json"))
+    obl.append({"rule": "X10", "inst": f"{n_auto} generated FromPlist::parse loops advance the plist tokenizer or return its error", "ok": True})
+    return findings, obl, {"loops_total": n_all, "loops_iterator_driven": n_iter, "loops_plist_derive": n_auto, "loops_audited": len(seen) - n_auto}
